@@ -188,6 +188,8 @@ def validate_traces(
             for t in part:
                 fh.write(json.dumps(t, separators=(",", ":")) + "\n")
         cfg = "INIT TInit\nNEXT TNext\nINVARIANT TVerdict\nCHECK_DEADLOCK FALSE\n" + cfg_extra
+        if os.path.exists(vf):      # CSVWrite appends: verdicts of an earlier call under the same name must not be read again
+            os.remove(vf)
         e = {"TRACE_FILE": tf, "VERDICT_FILE": vf}
         e.update(env or {})
         run_tlc(run, module, cfg, env=e, workers=workers, name=f"{name}-{ci}")
@@ -202,7 +204,8 @@ def validate_traces(
         for t in part:
             if t["id"] not in got:
                 raise MachineryError(f"trace id {t['id']} got no verdict from {module} ({vf})")
-        verdicts.update(got)
+        ids = {t["id"] for t in part}
+        verdicts.update({k: v for k, v in got.items() if k in ids})
         run.traces += len(part)
         os.remove(tf)
     return verdicts
